@@ -1,3 +1,5 @@
+//go:build !verifsched
+
 package props
 
 import (
